@@ -113,12 +113,31 @@ func Instrs(fn *ssa.Function, f func(ssa.Instruction)) {
 	}
 }
 
-// WithClosures returns fn and all anonymous functions nested in it (any depth).
+// WithClosures returns fn and all anonymous functions nested in it (any depth). A goroutine body that lives in a
+// function the rules have never seen (`go r.pump(ctx, …)` instead of `go func() { … }()`) counts as nested too: its
+// parameters resolve to the arguments of the go statement (see transparentCallSites).
 func WithClosures(fn *ssa.Function) []*ssa.Function {
-	out := []*ssa.Function{fn}
-	for _, a := range fn.AnonFuncs {
-		out = append(out, WithClosures(a)...)
+	seen := map[*ssa.Function]bool{}
+	var out []*ssa.Function
+	var walk func(f *ssa.Function)
+	walk = func(f *ssa.Function) {
+		if seen[f] {
+			return
+		}
+		seen[f] = true
+		out = append(out, f)
+		for _, a := range f.AnonFuncs {
+			walk(a)
+		}
+		Instrs(f, func(in ssa.Instruction) {
+			if g, ok := in.(*ssa.Go); ok {
+				if h := transparentCalleeOf(g.Common(), f); h != nil && h.Parent() == nil {
+					walk(h)
+				}
+			}
+		})
 	}
+	walk(fn)
 	return out
 }
 
@@ -164,6 +183,10 @@ type PathQuery struct {
 	AvoidEdge func(from, to *ssa.BasicBlock) bool
 	// Target: search ends successfully at an instruction for which Target is true.
 	Target func(ssa.Instruction) bool
+	// Through (optional): the target only counts on paths that have passed at least Need (default 1) instructions
+	// for which Through is true (instructions inside looked-through callees included).
+	Through func(ssa.Instruction) bool
+	Need    int
 }
 
 // From searches from the instruction *after* start (or from the function
@@ -192,13 +215,18 @@ func (q PathQuery) from(fn *ssa.Function, start ssa.Instruction, startBlock *ssa
 		i     int
 		known map[ssa.Value]string // call (single result) or extract -> "true" | "false" | "nil"
 		prev  *item
+		n     int // Through instructions passed so far (capped at Need)
+	}
+	need := q.Need
+	if q.Through != nil && need == 0 {
+		need = 1
 	}
 	keyOf := func(it *item) string {
 		var sb strings.Builder
 		for _, c := range it.chain {
 			fmt.Fprintf(&sb, "%p/", c)
 		}
-		fmt.Fprintf(&sb, "%p:%d", it.b, it.i)
+		fmt.Fprintf(&sb, "%p:%d#%d", it.b, it.i, it.n)
 		if len(it.known) > 0 {
 			ks := make([]string, 0, len(it.known))
 			for k, v := range it.known {
@@ -307,7 +335,7 @@ func (q PathQuery) from(fn *ssa.Function, start ssa.Instruction, startBlock *ssa
 						}
 					}
 				}
-				nx := &item{chain: it.chain[:len(it.chain)-1], b: call.Block(), i: Index(call) + 1, known: known, prev: it}
+				nx := &item{chain: it.chain[:len(it.chain)-1], b: call.Block(), i: Index(call) + 1, known: known, prev: it, n: it.n}
 				if k := keyOf(nx); !seen[k] {
 					seen[k] = true
 					work = append(work, nx)
@@ -315,7 +343,7 @@ func (q PathQuery) from(fn *ssa.Function, start ssa.Instruction, startBlock *ssa
 				stopped = true
 				break
 			}
-			if q.Target != nil && q.Target(in) {
+			if q.Target != nil && q.Target(in) && it.n >= need {
 				var path []*ssa.BasicBlock
 				for p := it; p != nil; p = p.prev {
 					path = append([]*ssa.BasicBlock{p.b}, path...)
@@ -323,6 +351,16 @@ func (q PathQuery) from(fn *ssa.Function, start ssa.Instruction, startBlock *ssa
 				return in, path
 			}
 			if q.Avoid != nil && q.Avoid(in) {
+				stopped = true
+				break
+			}
+			if q.Through != nil && it.n < need && q.Through(in) {
+				// continue from the next instruction with the count raised (a new search state)
+				nx := &item{chain: it.chain, b: it.b, i: i + 1, known: it.known, prev: it, n: it.n + 1}
+				if k := keyOf(nx); !seen[k] {
+					seen[k] = true
+					work = append(work, nx)
+				}
 				stopped = true
 				break
 			}
@@ -335,7 +373,7 @@ func (q PathQuery) from(fn *ssa.Function, start ssa.Instruction, startBlock *ssa
 						}
 					}
 					if !onChain {
-						nx := &item{chain: append(append([]*ssa.Call{}, it.chain...), call), b: h.Blocks[0], known: it.known, prev: it}
+						nx := &item{chain: append(append([]*ssa.Call{}, it.chain...), call), b: h.Blocks[0], known: it.known, prev: it, n: it.n}
 						if k := keyOf(nx); !seen[k] {
 							seen[k] = true
 							work = append(work, nx)
@@ -367,7 +405,7 @@ func (q PathQuery) from(fn *ssa.Function, start ssa.Instruction, startBlock *ssa
 			if q.AvoidEdge != nil && q.AvoidEdge(it.b, s) {
 				continue
 			}
-			nx := &item{chain: it.chain, b: s, known: it.known, prev: it}
+			nx := &item{chain: it.chain, b: s, known: it.known, prev: it, n: it.n}
 			if k := keyOf(nx); seen[k] {
 				continue
 			} else {
@@ -538,6 +576,12 @@ func sources(v ssa.Value, transparent bool) []ssa.Value {
 						visit(site.Args[idx])
 					}
 				}
+				return
+			}
+			out = append(out, v)
+		case *ssa.FreeVar:
+			if b := FreeVarBinding(x); b != nil {
+				visit(b)
 				return
 			}
 			out = append(out, v)
@@ -1177,6 +1221,12 @@ func ValuesAt(v ssa.Value) []ssa.Value {
 				}
 			}
 			out = append(out, v)
+		case *ssa.FreeVar:
+			if b := FreeVarBinding(x); b != nil {
+				visit(b)
+				return
+			}
+			out = append(out, v)
 		default:
 			out = append(out, v)
 		}
@@ -1489,6 +1539,11 @@ func PhiLeaves(v ssa.Value) []PhiLeaf {
 	var walk func(v ssa.Value, conds []CondEdge)
 	walk = func(v ssa.Value, conds []CondEdge) {
 		v = stripConv(v)
+		if fv, isFV := v.(*ssa.FreeVar); isFV {
+			if b := FreeVarBinding(fv); b != nil {
+				v = stripConv(b)
+			}
+		}
 		phi, ok := v.(*ssa.Phi)
 		if !ok {
 			// a local variable kept in memory (e.g. results spilled because of defer): the stores that reach the load,
@@ -1552,25 +1607,28 @@ func PhiLeaves(v ssa.Value) []PhiLeaf {
 }
 
 var (
-	tcsProg  *Program
-	tcsIndex map[*ssa.Function][]*ssa.CallCommon
+	tcsProg   *Program
+	tcsIndex  map[*ssa.Function][]*ssa.CallCommon
+	tcsParent map[*ssa.CallCommon]*ssa.Function
 )
 
 // transparentCallSites: for a parameter of a function that is only ever entered through calls the analyses look
-// through (see TransparentCallee), the calls and the parameter's position among their arguments.
+// through (see TransparentCallee), the calls and the parameter's position among their arguments. Under Focus only
+// the calls made from the focused function count (when there are any).
 func transparentCallSites(p *ssa.Parameter) ([]*ssa.CallCommon, int) {
 	f := p.Parent()
 	if f == nil || currentProg == nil {
 		return nil, 0
 	}
 	if tcsProg != currentProg {
-		tcsProg, tcsIndex = currentProg, map[*ssa.Function][]*ssa.CallCommon{}
+		tcsProg, tcsIndex, tcsParent = currentProg, map[*ssa.Function][]*ssa.CallCommon{}, map[*ssa.CallCommon]*ssa.Function{}
 		for fn := range currentProg.AllFuncs {
 			Instrs(fn, func(in ssa.Instruction) {
 				// calls, and `go f(args)` / `defer f(args)` of local closures: their arguments bind the parameters too
 				if ci, ok := in.(ssa.CallInstruction); ok {
 					if callee := transparentCalleeOf(ci.Common(), fn); callee != nil {
 						tcsIndex[callee] = append(tcsIndex[callee], ci.Common())
+						tcsParent[ci.Common()] = fn
 					}
 				}
 			})
@@ -1579,6 +1637,17 @@ func transparentCallSites(p *ssa.Parameter) ([]*ssa.CallCommon, int) {
 	sites := tcsIndex[f]
 	if len(sites) == 0 {
 		return nil, 0
+	}
+	if focusSet != nil {
+		var in []*ssa.CallCommon
+		for _, cc := range sites {
+			if focusSet[tcsParent[cc]] {
+				in = append(in, cc)
+			}
+		}
+		if len(in) > 0 {
+			sites = in
+		}
 	}
 	for i, q := range f.Params {
 		if q == p {
@@ -1977,3 +2046,115 @@ func freshError(v ssa.Value) bool {
 	}
 	return false
 }
+
+var (
+	tcallersProg  *Program
+	tcallersIndex map[*ssa.Function][]*ssa.Function
+)
+
+// Owners: the functions the rules know that fn belongs to: fn's outermost enclosing function, or - when that is a
+// function the rules have never seen and it is only entered through calls they look through (a helper, a goroutine
+// body started with `go f(…)`) - the owners of its callers.
+func Owners(fn *ssa.Function) []*ssa.Function {
+	if currentProg != nil && tcallersProg != currentProg {
+		tcallersProg, tcallersIndex = currentProg, map[*ssa.Function][]*ssa.Function{}
+		for f := range currentProg.AllFuncs {
+			Instrs(f, func(in ssa.Instruction) {
+				if ci, ok := in.(ssa.CallInstruction); ok {
+					if callee := transparentCalleeOf(ci.Common(), f); callee != nil && callee.Parent() == nil {
+						tcallersIndex[callee] = append(tcallersIndex[callee], f)
+					}
+				}
+			})
+		}
+	}
+	seen := map[*ssa.Function]bool{}
+	var out []*ssa.Function
+	var walk func(f *ssa.Function, depth int)
+	walk = func(f *ssa.Function, depth int) {
+		for f.Parent() != nil {
+			f = f.Parent()
+		}
+		if seen[f] {
+			return
+		}
+		seen[f] = true
+		callers := tcallersIndex[f]
+		if KnownFunc(FuncQName(f)) || len(callers) == 0 || depth >= 3 {
+			out = append(out, f)
+			return
+		}
+		for _, c := range callers {
+			walk(c, depth+1)
+		}
+	}
+	walk(fn, 0)
+	SortFuncs(out)
+	return out
+}
+
+// FreeVarBinding: the value a closure's free variable was created with, when the variable is captured by value (go/ssa
+// does that for variables never reassigned after the closure is made). nil for by-reference captures (the binding is
+// the variable's address) and when the closure is made in several places.
+func FreeVarBinding(fv *ssa.FreeVar) ssa.Value {
+	f := fv.Parent()
+	if f == nil || f.Parent() == nil {
+		return nil
+	}
+	idx := -1
+	for i, x := range f.FreeVars {
+		if x == fv {
+			idx = i
+		}
+	}
+	if idx < 0 {
+		return nil
+	}
+	var found ssa.Value
+	n := 0
+	Instrs(f.Parent(), func(in ssa.Instruction) {
+		if mc, ok := in.(*ssa.MakeClosure); ok && mc.Fn == ssa.Value(f) && idx < len(mc.Bindings) {
+			found = mc.Bindings[idx]
+			n++
+		}
+	})
+	if n != 1 {
+		return nil
+	}
+	if _, isAddr := found.(*ssa.Alloc); isAddr {
+		return nil
+	}
+	if fv2, isFV := found.(*ssa.FreeVar); isFV {
+		if _, isPtr := fv2.Type().(*types.Pointer); isPtr && CellOf(fv2) != nil {
+			return nil
+		}
+	}
+	return found
+}
+
+// Focus restricts, until the returned function is called, the call sites through which parameters of looked-through
+// callees are resolved to those inside fn (its literals and the callees it looks through): a helper shared by two
+// handlers is then read in the context of the handler under analysis only.
+func Focus(fn *ssa.Function) (restore func()) {
+	prev := focusSet
+	set := map[*ssa.Function]bool{}
+	for _, f := range WithClosures(fn) {
+		set[f] = true
+	}
+	for _, h := range transparentCalleesOf(fn, 3) {
+		for _, f := range WithClosures(h) {
+			set[f] = true
+		}
+	}
+	for f := range set {
+		for _, a := range f.AnonFuncs {
+			for _, g := range WithClosures(a) {
+				set[g] = true
+			}
+		}
+	}
+	focusSet = set
+	return func() { focusSet = prev }
+}
+
+var focusSet map[*ssa.Function]bool
